@@ -294,9 +294,11 @@ def derives_from_param(t, idx):
     return any(x[0] == "param" and x[1] == idx for x in walk(t))
 
 
-def uniform_application(facts, rep, R3):
+def uniform_application(facts, rep, R3, only=None):
     for b in sorted(facts.bodies.values(), key=lambda b: b.name):
         if not (b.name.startswith(LFS + "::") and b.pub and b.kind == "AssocFn"):
+            continue
+        if only is not None and b.name.rsplit("::", 1)[-1] not in only:
             continue
         loc = None
         pth = None
